@@ -172,7 +172,7 @@ def case_percentile(case):
             v.append({"sub": "argument-modified", "sig": "argument-modified/contour", "msg": "extract_percentile_contour changed the caller's field f=%s to %s" % (list(f), fa.ravel().tolist())})
             fa = np.array(f, float).reshape(shape)
         # scaling and 3-D input (p = 1/2 and 13/16)
-        for pf in (0.5, 0.8125):
+        for pf in (0.5, 0.8125, 1.0):
             l0, a0 = extract_percentile_contour(fa, grids["2d"], pct=pf)
             for s in (0.25, 8.0, 2.0**-30):
                 l1, a1 = extract_percentile_contour(fa * s, grids["2d"], pct=pf)
